@@ -50,6 +50,9 @@ MAP = [
     ('a removed member no longer counts as connected', ['C20', 'C07']),
     ('a lock whose release request was lost', ['C16']),
     ('accepted connections get the configured TCP keepalive', ['C14']),
+    ('a read-only node with logCompactionSplit', ['C18']),
+    ('a read-only node that drops out while a large entry', ['C11']),
+    ('a delayed prolongation or acquisition', ['C16']),
 ]
 
 
